@@ -662,11 +662,15 @@ class SrvAdapter:
         # session id of s<k>" (personal room / custom room named like a sid)
         if r[0] == 's' and r[1:].isdigit():
             return self._real_sid(r)
+        if r == 'rz0':
+            return 0        # a room whose name is falsy (an integer id)
         return r
 
     def _room_tok(self, r):
         if r in self.names:
             return self.names[r]
+        if r == 0 and type(r) is int:
+            return 'rz0'
         return r if isinstance(r, str) else '?' + repr(r)
 
     def _to(self, kind, to):
